@@ -13,7 +13,7 @@ RULE = ("enumerated: wrapped element kind (4 run elements, 3 fill/compute, 2 fil
         "FillRequestSeq) x bufsize 1..5 x buffer_input/buffer_output x reset x "
         "yield_on_remainder x flow length 0..N; for every config with fill: ALL request "
         "schedules (every subset of fill positions, final request appended) for flows <= 6 "
-        "(quick) / <= 9 (thorough); Split(bufsize=b) around the FillRequest for b=1..N+1. "
+        "(quick) / <= 11 (thorough); Split(bufsize=b) around the FillRequest for b=1..N+1. "
         "Non-trivial: flow holds at least one complete block")
 ASSUMPTIONS = ["flows are iterators (as Sequence and Split pass them), values are unique ints",
                "'at most one block buffered' is read as: after a request() has been drained, at "
@@ -28,8 +28,8 @@ MUST_REACH = ["lena/core/adapters.py:FillRequest.fill", "lena/core/adapters.py:F
 MUST_COUNT = ["histories", "run_executions", "step_budget_guards"]
 MIN_NONTRIVIAL = {"quick": 300, "thorough": 1000}
 EXHAUSTIVE = {"quick": True, "thorough": True}
-NMAX_RUN = {"quick": 12, "thorough": 16}
-NMAX_HIST = {"quick": 6, "thorough": 9}
+NMAX_RUN = {"quick": 12, "thorough": 24}
+NMAX_HIST = {"quick": 6, "thorough": 11}
 
 LEVEL_TEXT = ("Complete enumeration of the configuration space the property names (element kind, "
               "bufsize 1..5, buffer mode, reset, yield_on_remainder) with every flow length up to "
